@@ -39,6 +39,10 @@ def run(tier):
                 "identity on the un-truncated pulled-back energy.",
                 trusted_base=["python ast", "hv.kpe", "hv.polymodel summaries (C06.c)", "sympy series/legendre", "E_true from the manifold filter's Jacobi formula (C01.d)"])
     N = 6 if tier == "quick" else 9
+    # a cached expansion must be keyed by the point (its mu and kind) and the degree it was built for
+    from .. import memo
+    memo.check_modules(chk, "C07.d-memo", ["hiten.algorithms.hamiltonian.pipeline", "hiten.algorithms.hamiltonian.hamiltonian", "hiten.algorithms.types.services.libration"],
+                       floor=2, what="hand-rolled caches on the Hamiltonian construction path")
     _a_legendre(chk, N)
     _b_assembly(chk, N)
     _c_map_origin(chk)
